@@ -280,6 +280,9 @@ class ExprMixin:
         if all(p.pt == "bool" for p in parts):
             ts = [p.t for p in parts]
             return SV(z3.And(ts) if isinstance(node.op, ast.And) else z3.Or(ts), "bool")
+        if res.t is not None:
+            # remember the operands: the truth value of `a and b` is truth(a) and truth(b), whatever value it denotes
+            res = SV(res.t, res.pt, py=("boolop", "and" if isinstance(node.op, ast.And) else "or", parts))
         return res
 
     def ite(self, c, a: SV, b: SV) -> SV:
